@@ -268,3 +268,62 @@ for _t, (_fq, _cls) in MSG_VARIANTS.items():
 contract(SC + '.correctly_signed_message', trusted=True, variants=_variants,
          note='dispatch stub: every call site in the package passes a constant message type and is checked against the '
               'specialised variant; a call with a non-constant type would fall back to this (no guarantees)')
+
+
+# ================================================================================================ C15: redirect signatures
+from pyvc.execexpr import global_object
+RS = 'saml2_tophat.sigver:RSASigner'
+declare_class('saml2_tophat.sigver:Signer', fields={'key': 'Any'})
+declare_class(RS, fields={'digest': 'Any'})
+declare_class('saml2_tophat.sigver:RSACrypto', fields={'key': 'Any'})
+global_object('saml2_tophat.sigver:SIGNER_ALGS', "Dict(Str, Inst('%s'))" % RS)
+ghost('rsa_sign', ['Val', 'Val', 'Val'], 'Val')        # E-RSA: signature of (key, message, digest)
+ghost('rsa_ok', ['Val', 'Val', 'Val', 'Val'], 'Bool')  # E-RSA: (key, signature, message, digest) verifies
+
+contract('saml2_tophat.sigver:Signer.__init__', inline=True)
+contract(RS + '.__init__', inline=True)
+contract('saml2_tophat.sigver:RSACrypto.get_signer', types={'sigalg': 'Any', 'sigkey': 'Any'}, returns="Opt(Inst('%s'))" % RS,
+         ensures=[('unsupported-algorithm', 'implies(not (sigalg in SIGNER_ALGS), result is None)'),
+                  ('supported-algorithm', 'implies(sigalg in SIGNER_ALGS, result is not None)'),
+                  # C15: the signer carries the key of the entity that asked for it ...
+                  ('C15-own-key', 'implies(result is not None, result.key == ite(truthy(sigkey), sigkey, self.key) '
+                                  'and result.digest == SIGNER_ALGS[sigalg].digest)'),
+                  # ... and is reachable by nobody else: with the frame clause below (nothing allocated before the call
+                  # is written) any interleaving of two entities' obtain/sign steps equals the sequential one
+                  ('C15-not-shared', 'implies(result is not None, fresh(result))')],
+         raises={}, modifies=[],
+         clauses_from={'C15': ['C15-own-key', 'C15-not-shared', 'frame']})
+
+contract('saml2_tophat.cryptography.asymmetric:key_sign', trusted=True, pure=True, params=['rsakey', 'message', 'digest'],
+         ensures=['result == rsa_sign(rsakey, message, digest)'], raises={'Exception': 'True'}, assumptions=['E-RSA'])
+contract('saml2_tophat.cryptography.asymmetric:key_verify', trusted=True, pure=True,
+         params=['rsakey', 'signature', 'message', 'digest'], returns='Bool',
+         ensures=['vb(result) == rsa_ok(rsakey, signature, message, digest)'], assumptions=['E-RSA'])
+contract(RS + '.sign', types={'msg': 'Any', 'key': 'Any'}, pure=True,
+         ensures=[('C15-signs-with-own-key', 'result == rsa_sign(ite(truthy(key), key, self.key), msg, self.digest)')],
+         raises={'Exception': 'True'}, modifies=[], clauses_from={'C15': ['C15-signs-with-own-key']})
+contract(RS + '.verify', types={'msg': 'Any', 'sig': 'Any', 'key': 'Any'}, pure=True, returns='Bool',
+         ensures=[('C15-verifies-with-given-key', 'vb(result) == rsa_ok(ite(truthy(key), key, self.key), sig, msg, self.digest)')],
+         modifies=[], clauses_from={'C15': ['C15-verifies-with-given-key']})
+
+ghost('pubkey_of_cert', ['Val'], 'Val')     # public key inside a PEM certificate (E-RSA / E-X509)
+contract('saml2_tophat.sigver:extract_rsa_key_from_x509_cert', trusted=True, pure=True, params=['pem'],
+         ensures=['result == pubkey_of_cert(pem)', 'truthy(result)'], raises={'Exception': 'True'}, assumptions=['E-X509'])
+
+# SAML bindings 3.4.4.1: the octet string that is signed -- SAMLRequest|SAMLResponse, then RelayState if present,
+# then SigAlg, each as one urlencoded k=v pair, joined by '&' (property-derived, not read off the code)
+macro('SIGNED_QUERY', ['d', 'typ'],
+      "concat(urlenc1(typ, str_of(d[typ])), "
+      "str_of(ite('RelayState' in d, vstr(concat('&', urlenc1('RelayState', str_of(d['RelayState'])))), vstr(''))), "
+      "str_of(ite('SigAlg' in d, vstr(concat('&', urlenc1('SigAlg', str_of(d['SigAlg'])))), vstr(''))))")
+_TYP = "ite('SAMLRequest' in saml_msg, 'SAMLRequest', 'SAMLResponse')"
+contract('saml2_tophat.sigver:verify_redirect_signature',
+         types={'saml_msg': 'Dict(Str, Str)', 'crypto': "Inst('saml2_tophat.sigver:RSACrypto')", 'cert': 'Opt(Str)', 'sigkey': 'Any'},
+         ensures=[('C15-unsupported-never-verifies', "implies(truthy(result), 'SigAlg' in saml_msg and saml_msg['SigAlg'] in SIGNER_ALGS)"),
+                  ('C15-verifies-signed-query-under-given-certificate',
+                   "implies(truthy(result), rsa_ok(ite(truthy(cert), pubkey_of_cert(pem(cert)), ite(truthy(sigkey), sigkey, crypto.key)), "
+                   "vbytes(unb64(str_of(saml_msg['Signature']))), "
+                   "vbytes(utf8(SIGNED_QUERY(saml_msg, %s))), SIGNER_ALGS[saml_msg['SigAlg']].digest))" % _TYP)],
+         raises={'KeyError': 'True', 'Unsupported': 'True', 'ValueError': 'True', 'Exception': 'True'},
+         modifies=[],
+         clauses_from={'C15': ['C15-unsupported-never-verifies', 'C15-verifies-signed-query-under-given-certificate']})
